@@ -1,3 +1,4 @@
+import Mdsort.Proofs.Opts
 import Mdsort.Proofs.Interp
 import Mdsort.Proofs.Captures
 import Mdsort.Proofs.MainTextMacros
@@ -45,17 +46,17 @@ theorem C12_label_ignores_message (macros : Option (List (Bytes × Bytes))) (ml 
     (matchInterpolate macros ml i mh msgs1).isSome = (matchInterpolate macros ml i mh msgs2).isSome :=
   Proofs.label_interpolation_ignores_message macros ml i mh hty msgs1 msgs2
 
-/-- The existing labels as `match_interpolate` reads them. -/
+/-- The existing labels as `match_interpolate` copies them (line breaks of a decoded value become a space). -/
 def C12_existingLabels (m : Msg) : Bytes :=
   match getHeader m (ofString "X-Label") with
   | none => []
-  | some ls => (ls.intersperse [32]).flatten
+  | some ls => ((ls.map labelSafe).intersperse [32]).flatten
 
 /-- (audit au2) What a `label "s"` entry sets: the existing `X-Label` values AS `message_get_header` RETURNS THEM
-(all occurrences, each unfolded and RFC 2047-decoded, joined by one space), one space, and the interpolation `v` of
-the configured string - the existing text is appended to, never interpolated; the whole is cut at its first NUL.
-Because the DECODED text is written back, an encoded newline in an existing label ends up raw in the header block:
-`C08_label_value_from_message_breaks_rewrite`. -/
+(all occurrences, each unfolded and RFC 2047-decoded; since /repo 71eba6c with every `\n` / `\r` of a decoded value
+turned into a space, `Model.labelSafe`), joined by one space, one space, and the interpolation `v` of the configured
+string - the existing text is appended to, never interpolated; the whole is cut at its first NUL.  That the value is
+safe to write back is `C08_label_value_safe` / `C08_label_rewrite_preserves`. -/
 theorem C12_label_value (macros : Option (List (Bytes × Bytes))) (ml : MatchList) (i : Nat) (mh : Match)
     (msgs : Nat → Msg) (hty : mh.ty = .label) (s v : Bytes) (hs : mh.strings = [s])
     (hv : interpolate (ml.take i) macros s = some v) :
@@ -350,6 +351,33 @@ theorem C12_macro_definitions (ms : List Macro) (name v : Bytes) (lno : Nat) :
   ⟨fun sticky hp hn => Proofs.MainText.mt_insert_new ms name v lno sticky hp hn,
    fun m hf hs hd hp => Proofs.MainText.mt_insert_sticky ms name v lno m hf hs hd hp,
    fun sticky hex hno => Proofs.MainText.mt_insert_twice ms name v lno sticky hex hno⟩
+
+/-! ## `-D name=value` on the command line (package ce13) -/
+
+/-- The `-D` options of an accepted command line (`Model.parseArgs`, Model/Opts.lean) always form a macro table
+(`macrosOfDefs` - the table `parseConfig` starts from - does not fail: the run from `argv` never meets `invalidDefs`
+after the option loop), and in it every `-D name=value` is the value of `${name}` and OVERRIDES the file: a definition
+`name = "v2"` on any line of the configuration is accepted and dropped, every name keeps its value
+(`C12_macro_definitions`, second part, instantiated for every name given with `-D`). -/
+theorem C12_D_overrides (permute : Bool) (args : List Bytes) (o : Opts) (h : parseArgs permute args = .ok o) :
+    ∃ ms, macrosOfDefs o.defs [] = some ms ∧
+      ∀ n v, (n, v) ∈ o.defs →
+        Spec.macroValue ms n = some v ∧
+        ∀ v2 lno, ∃ ms', macrosInsert ms n v2 lno false = some ms' ∧ Spec.macroValue ms' = Spec.macroValue ms := by
+  obtain ⟨ms, hms⟩ := Proofs.Opts.parseArgs_defs_table permute args o h
+  refine ⟨ms, hms, fun n v hm => ?_⟩
+  obtain ⟨_, hp, hf⟩ := Proofs.Opts.macrosOfDefs_find o.defs [] ms hms n v hm
+  refine ⟨by simp only [Spec.macroValue, hf]; rfl, fun v2 lno => ?_⟩
+  exact Proofs.MainText.mt_insert_sticky ms n v2 lno _ hf rfl rfl hp
+
+open Proofs.MainText in
+/-- Non-vacuity, from `argv` to the strings of the tree: `mdsort -D a=D` over a file that also defines `a`. -/
+example :
+    (match parseArgs true ["-n".toUTF8.toList, "-D".toUTF8.toList, "a=D".toUTF8.toList] with
+     | .ok o => mt_strings (parseConfig [] o.defs (fun _ => true)
+         "a = \"1\"\nmaildir \"q\" { match all move \"${a}\" }".toUTF8.toList) == some [(["q".toUTF8.toList], ["D".toUTF8.toList])]
+     | .error _ => false) = true := by
+  decide +kernel
 
 /-! Non-vacuity and witnesses, on whole configuration files through `parseConfig` (the strings of the
 accepted trees are read with `mt_strings`: per block the maildir paths and the strings of its rules). -/
